@@ -5,9 +5,10 @@ package repository_test
 //
 // Engine GATE (crashx) on the real repository.UpgradeRepo, on a v1 repository
 // with two snapshots, for backends with and without atomic replace.  Explored:
-// every single (quick) / every pair (thorough) of injected failures among the
+// every pair (quick) / every triple (thorough) of injected failures among the
 // backend operations of the upgrade (Load config, Remove config, Save config:
-// failing before the write, or after the write took effect), every scheduler
+// failing before the write, or after the write took effect; a Load may also be
+// interrupted half-way and repeated, as the retry layer does), every scheduler
 // step as a crash state.
 //
 // State oracle: the repository opens with the old or the new config and passes
@@ -26,6 +27,7 @@ import (
 	"github.com/restic/restic/internal/verifshim/gatebe"
 	"github.com/restic/restic/internal/verifshim/oracle"
 	"github.com/restic/restic/internal/verifshim/vh"
+	"github.com/restic/restic/internal/verifshim/xplore"
 )
 
 func TestVerif_C31(t *testing.T) {
@@ -52,7 +54,7 @@ func TestVerif_C31(t *testing.T) {
 		r.Violation("", "C31|fixture-inconsistent", fmt.Sprintf("a v1 repository written by restic itself does not pass the oracle: %v", p), nil)
 		return
 	}
-	bound := vh.Pick(r, 1, 3)
+	bound := vh.Pick(r, 2, 3)
 	seen := map[string]bool{}
 	for _, atomic := range []bool{true, false} {
 		atomic := atomic
@@ -77,6 +79,10 @@ func TestVerif_C31(t *testing.T) {
 				be.Alts = func(op *gatebe.Op) []string {
 					if op.Kind == "Save" || op.Kind == "Remove" {
 						return []string{"ok", "err", "err-after"}
+					}
+					if op.Kind == "Load" {
+						// "retried": the transfer breaks off half-way, the consumer is called again with the complete data
+						return []string{"ok", "err", "retried"}
 					}
 					return []string{"ok", "err"}
 				}
@@ -113,4 +119,11 @@ func TestVerif_C31(t *testing.T) {
 		crashx.Explore(r, t, sc, bound, seen)
 	}
 	r.Extra("deviation_bound", bound)
+}
+
+// TestVerifRace_C31 runs every scenario body free (gates answer at once, no oracle) under the race detector.
+func TestVerifRace_C31(t *testing.T) {
+	xplore.Free = 2
+	defer func() { xplore.Free = 0 }()
+	TestVerif_C31(t)
 }
